@@ -225,10 +225,7 @@ theorem one_reply_hSetH (args : List Bytes) : OneReply (Handler2.hSetH args) := 
   · intro s now ch
     apply good_call_all
     intro s o
-    dsimp only
-    split
-    · exact good_done_scalar _ _ rfl
-    · apply good_call_all; intro s o; exact good_done_scalar _ _ rfl
+    exact good_done_scalar _ _ rfl
   · exact oneReply_errReply
 
 theorem one_reply_hGetH (args : List Bytes) : OneReply (Handler2.hGetH args) := by
